@@ -492,6 +492,11 @@ def execute(run, res):
             if any(k in order for k in model) and sum(1 for k in model if k not in order) >= 2:
                 res.probe("canonical_head_and_tail")
             res.observe(stepno, op, describe(list(got)))
+            # the lists handed out belong to the caller: what it does to them must not come back
+            for handed_out in (got, goti):
+                if isinstance(handed_out, list):
+                    handed_out.reverse()
+                    del handed_out[:1]
             continue
         if op in ("listing", "iter"):
             if op == "iter":
